@@ -7,6 +7,7 @@ Oracle: for each unordered combination, the FBA problem in which the reactions c
 evaluator (gprspec.truth) are forced to zero; own KKT certificates.
 """
 import itertools
+from fractions import Fraction
 import math
 
 import z3
@@ -229,6 +230,10 @@ def c06_moma(E, w=(("EX_A",), ("DM_B",))):
         m.objective = "DM_B"
         direction = "max"
         rules = {"R1": "g1", "DRAIN": "g2"} if tid == "T9" else {"SRC": "g1", "DRAIN": "g2"}
+    # the objective whose value is reported as growth need not be one reaction with coefficient 1 (sixth seed round)
+    objc = E.pick("objective_coefficients", [{"DM_B": 1}, {"DM_B": 2}, {"DM_B": 1, "R1": 0.5}])
+    if objc != {"DM_B": 1}:
+        m.objective = {m.reactions.get_by_id(r): c for r, c in objc.items()}
     entity = E.pick("entity", ["reaction", "gene"])
     refkind = E.pick("reference", ["pfba", "optimize", "pfba-other-order"])
     try:
@@ -240,7 +245,7 @@ def c06_moma(E, w=(("EX_A",), ("DM_B",))):
         return
     if ref.status != "optimal":
         return
-    E.note(template=tid, entity=entity, reference=refkind)
+    E.note(template=tid, entity=entity, reference=refkind, objective=str(objc))
     if tid == "T8":
         pool = ["R1", "R2"] if entity == "reaction" else ["g3", "g2"]
     elif tid == "T9":
@@ -287,7 +292,10 @@ def c06_moma(E, w=(("EX_A",), ("DM_B",))):
         tot = rv(0)
         for a in dist.values():
             tot = tot + w_[a]
-        phi = z3.And(lp.feasible(w_), _eqz(E, tot, best), _eqz(E, w_["DM_B"], growth))
+        objv = rv(0)
+        for r_, c_ in objc.items():
+            objv = objv + rv(Fraction(c_)) * w_[r_]
+        phi = z3.And(lp.feasible(w_), _eqz(E, tot, best), _eqz(E, objv, growth))
         wit = None
         if recs is not None and len(recs) == len(pool):
             rec = recs[order.index(x)]
